@@ -32,6 +32,7 @@ def ser : TDesc → Val → Option (List UInt8)
   | .greedy e, .seq vs => serAll e vs
   | .rest, .bytes bs => some bs
   | .struct fs, .seq vs => serFields fs vs
+  | .padstruct _ _ _ fs, .seq vs => serFields fs vs
   | .opt _, .absent => some []
   | .opt t, v => ser t v
   | _, _ => none
@@ -60,6 +61,9 @@ def de (fuel : Nat) : TDesc → List UInt8 → Option (Val × List UInt8)
   | .greedy e, bs => (deGreedy fuel e bs).map fun vs => (.seq vs, [])
   | .rest, bs => some (.bytes bs, [])
   | .struct fs, bs => (deFields fuel fs bs).map fun (vs, r) => (.seq vs, r)
+  | .padstruct len at_ pad fs, bs =>
+      let bs' := if bs.length = len then bs.take at_ ++ List.replicate pad 0 ++ bs.drop at_ else bs
+      (deFields fuel fs bs').map fun (vs, r) => (.seq vs, r)
   | .opt t, bs => if bs.isEmpty then some (.absent, []) else de fuel t bs
   | .cond _, _ => none
   | .invalid, _ => none
@@ -130,7 +134,7 @@ inductive RxOut
   | short                       -- header could not be read (raises)
   | unknown (id : Nat)          -- frame ID not in the table: logged and dropped
   | undecodable (name : String) -- payload does not decode (raises)
-  | ok (seq : Nat) (name : String) (vals : List Val) (trailing : List UInt8)
+  | ok (seq id : Nat) (name : String) (vals : List Val) (trailing : List UInt8)
 deriving Repr, BEq
 
 /-- receive path: header → table → payload -/
@@ -143,6 +147,6 @@ def rxFrame (version : Nat) (cs : List Cmd) (d : List UInt8) : RxOut :=
     | some c =>
       match deFields (payload.length + 1) c.rxT payload with
       | none => .undecodable c.name
-      | some (vs, r) => .ok seq c.name vs r
+      | some (vs, r) => .ok seq id c.name vs r
 
 end BV.Codec
